@@ -247,7 +247,9 @@ PROPS = {
         "theorems": ["Meddly.IndexSet.index_eval", "Meddly.IndexSet.header_spec",
                      "Meddly.IndexSet.getElementSpec_rank", "Meddly.IndexSet.getElementSpec_some",
                      "Meddly.IndexSet.getElementSpec_none", "Meddly.IndexSet.getElement_spec",
-                     "Meddly.DD.enumerate_spec"],
+                     "Meddly.DD.enumerate_spec"] +
+                    # closed form rank <-> member of product sets: the oracle of the LARGE (beyond 2^32 members) cases
+                    ["Meddly.ProdSet." + t for t in ["elem_mem", "rank_elem", "elem_rank", "rank_lt", "rank_none_iff", "elem_strictMono"]],
         "quick": [fam("index")],
         "thorough": [fam("index", "asan")],
         "leanchecker": ["MeddlyModel.Ops.IndexSet"],
@@ -255,7 +257,8 @@ PROPS = {
         "level_text": "Lean model toIndex of mdd2index_operation::_compute on MT-bool trees (skipped positions unpacked as redundant nodes, children left to right, running total as edge value of non-empty children, total in the header, all-empty node -> transparent terminal) with index_eval: for every shape without identity positions (sets, fully or quasi reduced), every tree and every valid assignment the resulting EV+ tree evaluates to rank (= number of members lexicographically smaller) on members and to +infinity on non-members; header_spec: returned / stored cardinality = number of members, every node's header = sum of its children's. List level: getElementSpec i = i-th member in lexicographic order; getElementSpec_rank / _some / _none: it inverts rank and fails exactly outside 0..n-1 (always on the empty set); getElement_spec: the model of dd_edge::getElemLong (backward linear search over the sparse entries for the last edge value <= index, level by level, final test index > 0) run on toIndex's result returns getElementSpec for EVERY index (negative, inside, beyond n) and every set over at least one variable. Tie: differential - ALL subsets of the domains (2),(2,2),(3,2),(2,2,2) from fully- and quasi-reduced sources (warm compute table) and random larger domains: evaluate() table of the result against indexSpec, getElement(i) for i in -1..n+1 against getElementSpec, getIndexSetCardinality of EVERY node of the index forest recounted on a dump, iteration over the index set, source unchanged.",
         "level_note": "Theorems are about the Lean tree model of the EV+ index-set nodes (full child vector with offsets + stored cardinality); the model of getElement answers `none` when the root is the transparent terminal, where the real code dereferences the terminal: known finding F2 (getElement(i>=0) on the index set of the EMPTY set -> SIGSEGV), probed in a forked child in case 0; while it reproduces the other cases only ask i=-1 on empty index sets, once repaired they ask the whole range again (automatic). The compute table of the conversion (keyed by source node, only at the node's own level) is exercised warm but not modelled. getElemInt (int edge values) is unreachable: index-set forests use long edge values.",
         "technique": "Lean 4 proof (induction on positions; sorted-list rank lemmas) + exhaustive-small and random differential correspondence",
-        "partial": ["convert2index compute table not modelled (exercised warm, differential)"],
+        "partial": ["convert2index compute table not modelled (exercised warm, differential)",
+                    "large product sets (20-24 variables, more than 2^32 members): the oracle is the closed form of Spec/ProdSet.lean, proved to be the order isomorphism between [0, n) and the members (rank_elem, elem_rank, elem_strictMono); its identification with IndexSet.indexSpec on tables is the counting argument 'the member of rank i has i members before it', not a separate theorem"],
     },
     "C10": {'title': 'Copying between forests preserves the function',
      'theorems': ['Meddly.KnownFindings.FC10.FC10_1_violates', 'Meddly.KnownFindings.FC10.FC10_1_positive', 'Meddly.EDD.copyMTtoEV_eval_top', 'Meddly.EDD.copyEVtoMT_eval_top', 'Meddly.EDD.copy_roundtrip', 'Meddly.EDD.copyMTtoEV_unique',
